@@ -83,6 +83,7 @@ type c16Obs struct {
 	desc  map[string]interface{}
 	sdl   string
 	intro map[string]interface{}
+	mut   map[string]interface{}
 }
 
 // fillDirDefaults: the canonical form takes directive-argument defaults into
@@ -137,6 +138,7 @@ func c16Load(docs []string) *c16Obs {
 	o := &c16Obs{}
 	o.desc, _ = fillDirDefaults(root, descSchema(root, "d")).(map[string]interface{})
 	o.intro = root.ResolveString(c14Introspection, "", nil)
+	o.mut = root.ResolveString("mutation{m}", "", nil)
 	return o
 }
 
@@ -160,7 +162,7 @@ func C16_order() {
 		xQuery, xEnum, xUnion, xInput, xIface = true, true, true, true, true
 	}
 	canonDefs, _, _ := c16Defs(obj, false, false, false, false, false)
-	canon := c16Load([]string{c16Arrange(canonDefs, 0)})
+	canon := c16Load([]string{c16Arrange(canonDefs, 0) + "type Mutation { m: Int }\ntype Subscription { s: Int }\n"})
 	sym.Assert(!canon.err, "canonical arrangement accepted")
 
 	sym.MapOrder(true)
@@ -180,10 +182,31 @@ func C16_order() {
 	default:
 		docs = []string{c16Arrange(defs[:split], order), c16Arrange(append(append([]string{}, defs[split:]...), extends...), order)}
 	}
+	// the other root operation types: with the rest, or in loads of their own in either order
+	const mut, sub = "type Mutation { m: Int }\n", "type Subscription { s: Int }\n"
+	rootLayout := 0
+	if order == 0 || sym.Thorough() {
+		rootLayout = sym.Choice("root types", 5)
+	}
+	switch rootLayout {
+	case 0:
+		docs[len(docs)-1] += mut + sub
+	case 1:
+		docs = append(docs, mut, sub)
+	case 2:
+		docs = append(docs, sub, mut)
+	case 3:
+		docs[len(docs)-1] += sub
+		docs = append(docs, mut)
+	default:
+		docs = append([]string{mut}, docs...)
+		docs = append(docs, sub)
+	}
 	sym.Observe("docs", len(docs))
 	sym.Budget(60_000_000)
 	got := c16Load(docs)
 	sym.Assert(!got.err, "every arrangement of an accepted definition set is accepted")
 	sym.Assert(sym.DeepEqual(interface{}(got.desc), interface{}(canon.desc)), "same schema as the canonical arrangement")
 	sym.Assert(sym.DeepEqual(interface{}(got.intro), interface{}(canon.intro)), "same introspection answer as the canonical arrangement")
+	sym.Assert(sym.DeepEqual(interface{}(got.mut), interface{}(canon.mut)), "requests resolve as under the canonical arrangement")
 }
